@@ -122,6 +122,9 @@ pub fn scenario(seed: u64, uni: &Universe, rep: &mut Report, prefix: &str) {
             let gap = last_drain.elapsed();
             last_drain = Instant::now();
             let timing_ok = gap < Duration::from_millis(5);
+            // judgements of this batch are kept back until the batch has been handled: if the
+            // process was stalled meanwhile, the requests were older than they looked
+            let mut batch_violations: Vec<(String, Value)> = Vec::new();
             // new requests of the lookup
             for m in rig.take_handler_in() {
                 if let HandlerIn::Request(c, r) = m {
@@ -143,13 +146,20 @@ pub fn scenario(seed: u64, uni: &Universe, rep: &mut Report, prefix: &str) {
                             rep.count("inflight_checks");
                         }
                         if timing_ok && inflight + 1 > bound.max(1) && prefix == "C09" {
-                            rep.violation("C09:parallelism-exceeded", format!("{} requests in flight, parallelism {parallelism} (successes so far {successes})", inflight + 1), w("parallelism", &log));
+                            batch_violations.push((format!("{} requests in flight, parallelism {parallelism} (successes so far {successes})", inflight + 1), w("parallelism", &log)));
                         }
                         asked.push(Asked { at: now, rid: r.id.clone(), na, distances: distances.clone(), outcome: None, partial: false });
                     } else {
                         rig.emit(HandlerOut::RequestFailed(r.id.clone(), RequestError::Timeout)).await;
                     }
                 }
+            }
+            if last_drain.elapsed() < Duration::from_millis(5) {
+                for (what, wit) in batch_violations {
+                    rep.violation("C09:parallelism-exceeded", what, wit);
+                }
+            } else if !batch_violations.is_empty() {
+                rep.count("inflight_judgements_dropped_after_stall");
             }
             if handle.is_finished() {
                 break;
